@@ -10,22 +10,25 @@ package main
 //   - optional fields with a default of every base type; optional binary with a non-empty default and
 //     a nil value (FastAppend used to drop the field, so readers saw the default instead of empty)
 //   - struct map keys, containers nested 4 deep, enums inside containers
-//   - structs with 5, 9 and 12 required fields (the three code shapes of the required-field bit set)
+//   - structs with 5, 8, 9, 12, 15, 16, 17, 24 and 32 required fields of mixed types: every code shape of the
+//     required-field bit set (bitset.go GenIfNotSet: one word below / above half, several words, last word
+//     full, exactly on a word boundary); the producer deletes EVERY required field of them in turn
 //   - Ov / OvIn: a single corrupted type byte sends a 265 byte nested struct through gopkg's Skip as a
 //     map<string,i64>; Skip reports 268 bytes and the generated b[off:] panics (recorded finding)
 
 import (
+	"fmt"
 	"math"
 
 	"verif/harness/schemagen"
 	"verif/harness/valgen"
 )
 
-func ty(kind string) *schemagen.Type { return &schemagen.Type{Kind: kind} }
-func tyEnum(q string) *schemagen.Type { return &schemagen.Type{Kind: "enum", Name: q} }
-func tyStruct(q string) *schemagen.Type { return &schemagen.Type{Kind: "struct", Name: q} }
+func ty(kind string) *schemagen.Type           { return &schemagen.Type{Kind: kind} }
+func tyEnum(q string) *schemagen.Type          { return &schemagen.Type{Kind: "enum", Name: q} }
+func tyStruct(q string) *schemagen.Type        { return &schemagen.Type{Kind: "struct", Name: q} }
 func tyList(e *schemagen.Type) *schemagen.Type { return &schemagen.Type{Kind: "list", Elem: e} }
-func tySet(e *schemagen.Type) *schemagen.Type { return &schemagen.Type{Kind: "set", Elem: e} }
+func tySet(e *schemagen.Type) *schemagen.Type  { return &schemagen.Type{Kind: "set", Elem: e} }
 func tyMap(k, v *schemagen.Type) *schemagen.Type {
 	return &schemagen.Type{Kind: "map", Key: k, Elem: v}
 }
@@ -43,11 +46,13 @@ func fld(id int, name, req string, t *schemagen.Type, def *schemagen.Lit) *schem
 	return &schemagen.Field{ID: id, Name: name, Req: req, ReqText: rt, Type: t, Default: def}
 }
 
-func litInt(i int64) *schemagen.Lit    { return &schemagen.Lit{Kind: "int", Int: i} }
-func litStr(s string) *schemagen.Lit   { return &schemagen.Lit{Kind: "string", Str: s} }
-func litBin(s string) *schemagen.Lit   { return &schemagen.Lit{Kind: "binary", Str: s} }
-func litBool(b bool) *schemagen.Lit    { return &schemagen.Lit{Kind: "bool", Bool: b} }
-func litDbl(f float64) *schemagen.Lit  { return &schemagen.Lit{Kind: "double", Bits: math.Float64bits(f)} }
+func litInt(i int64) *schemagen.Lit  { return &schemagen.Lit{Kind: "int", Int: i} }
+func litStr(s string) *schemagen.Lit { return &schemagen.Lit{Kind: "string", Str: s} }
+func litBin(s string) *schemagen.Lit { return &schemagen.Lit{Kind: "binary", Str: s} }
+func litBool(b bool) *schemagen.Lit  { return &schemagen.Lit{Kind: "bool", Bool: b} }
+func litDbl(f float64) *schemagen.Lit {
+	return &schemagen.Lit{Kind: "double", Bits: math.Float64bits(f)}
+}
 
 func corpusProgram(key string) *schemagen.Program {
 	// file b (included)
@@ -139,7 +144,7 @@ func corpusProgram(key string) *schemagen.Program {
 		s := &schemagen.Struct{File: "a", Name: name, Kind: "struct"}
 		kinds := []string{"i32", "bool", "string", "i64", "byte", "double", "i16", "binary"}
 		for i := 0; i < n; i++ {
-			s.Fields = append(s.Fields, fld(10*(n-i), "r"+string(rune('a'+i)), "required", ty(kinds[i%len(kinds)]), nil))
+			s.Fields = append(s.Fields, fld(10*(n-i), fmt.Sprintf("r%02d", i), "required", ty(kinds[i%len(kinds)]), nil))
 		}
 		s.Fields = append(s.Fields, fld(5, "opt", "optional", ty("i32"), nil))
 		return s
@@ -156,7 +161,8 @@ func corpusProgram(key string) *schemagen.Program {
 	fa := &schemagen.File{Name: "a", Namespace: key + ".apkg", Includes: []string{"b"}, Defs: []*schemagen.Def{
 		{Enum: ea}, {Struct: k}, {Typedef: tdIdList}, {Typedef: tdM1}, {Typedef: tdIdList2}, {Typedef: tdES},
 		{Typedef: tdKK}, {Typedef: tdBin}, {Typedef: tdMEK}, {Struct: u}, {Struct: tdefs}, {Struct: defs}, {Struct: shapes},
-		{Struct: req("Req5", 5)}, {Struct: req("Req9", 9)}, {Struct: req("Req12", 12)}, {Struct: ovIn}, {Struct: ov}, {Struct: small},
+		{Struct: req("Req5", 5)}, {Struct: req("Req8", 8)}, {Struct: req("Req9", 9)}, {Struct: req("Req12", 12)}, {Struct: req("Req15", 15)},
+		{Struct: req("Req16", 16)}, {Struct: req("Req17", 17)}, {Struct: req("Req24", 24)}, {Struct: req("Req32", 32)}, {Struct: ovIn}, {Struct: ov}, {Struct: small},
 	}}
 	return &schemagen.Program{Key: key, Files: []*schemagen.File{fa, fb}}
 }
